@@ -30,8 +30,11 @@ CHECKS["C01"] = (
     "model_checking",
     "QuerySem.tla gives the documented denotation of every public query type over an index of analysed "
     "documents; TLC (QueryCheck.tla) evaluates it on each recorded case and judges what every access path of "
-    "the real Searcher returned on real multi-segment indexes with deletions built through real writers.",
-    "DESIGN.md 4.6, 5 (C01)",
+    "the real Searcher returned on real multi-segment indexes with deletions built through real writers; span "
+    "queries (SpanOr/First/Near/Near2/Not/Contains/Before/Condition, Sequence) through QuerySem!Spans; "
+    "Hit.matched_terms() through the matchedterms clause; one large sparse segment spanning several windows of the "
+    "array-based union matcher.",
+    "DESIGN.md 4.6, 5 (C01), 13.6",
     "Trusted: TLC, the concretisation tables in harness/world.py (letters, fields, analyzer with gap stop word), "
     "stored keys used to read back docnum order. Regex queries only via glob translation; not arbitrary regexes.",
     "TLA+ denotational spec evaluated by TLC as oracle over recorded searches (code->spec)")
@@ -40,7 +43,10 @@ CHECKS["C05"] = (
     "model_checking",
     "QuerySem!TopK (score desc, docnum asc over Denote) is evaluated by TLC for every recorded limited search; "
     "real indexes use posting blocks of 1..3 entries, several segments and deletions so that block skipping and "
-    "matcher replacement engage (counted in the evidence); documents, scores and order must equal the spec's.",
+    "matcher replacement engage (counted in the evidence); documents, scores and order must equal the spec's. "
+    "Collector.tla (design model of the top-N collector: threshold soundness, exact top-K, exact count) is "
+    "model-checked, and every step of traced real collections - documents delivered, thresholds handed to "
+    "matcher.replace / skip_to_quality, kept entries, final ranking, len - is validated by CollectorTrace.tla.",
     "DESIGN.md 4.5, 5 (C05)",
     "Exact regime only (scoring.Frequency, dyadic boosts) so that scores compare with ==; other weightings are "
     "covered by C12's bound checks, not here. Trusted: TLC, harness/world.py concretisation.",
